@@ -2,11 +2,13 @@
   C06 — every response value reaches the caller with the type and value that was sent.
   Impl side: the index-based x690 mirror (`decodeAt`, lazy nodes, `readNode`) with the registry
   generated from the working tree; spec side: `Snmp.Spec.readVal` on the same octets.
-  Proved here at the level of a single value TLV anywhere in a datagram, in every admissible
-  definite length form; binding lists / PDUs / messages are tied by correspondence (see DESIGN.md).
+  Proved at the level of a single value TLV anywhere in a datagram, in every admissible definite
+  length form (`C06_value_decode`), and for whole nested structures — binding lists, PDUs, message
+  wrappers — in every mix of length forms (`C06_tree_decode`, `Lemmas/BerTree.lean`).
 -/
 import Snmp.Lemmas.BerDecode
 import Snmp.Lemmas.BerInt
+import Snmp.Lemmas.BerTree
 namespace Snmp.Props.C06
 open Snmp Snmp.Ber
 
@@ -149,6 +151,33 @@ theorem C06_value_decode (f : LenForm) (t : Nat) (c pre rest : Bytes) (v : Val)
     simp [Except.toOption, treeVal, hspec]
   · cases hspec
 
+/-- **Whole structures, in every mix of definite length forms.**  `e` is any tree of TLVs as an
+    agent may write it: at every node its own length form (minimal, or long with 1..126 length
+    octets, also non-minimal); primitive nodes of any registered or unknown class; constructed
+    nodes of a class registered as a sequence (binding lists, bindings, message wrappers, header,
+    USM parameters, scoped PDU) with any number of items; PDU nodes (request-id, two integers, a
+    binding list of two-item bindings — what `PDU.decode_raw` reads at absolute indices); any
+    nesting.  Placed anywhere in a datagram (`pre`, `rest` arbitrary), the x690 mirror — `decode` at
+    an absolute index, lazy slices, `Sequence.decode_raw`'s `while next_pos < end` loop, the PDU
+    reader — finds exactly that node (class from the generated registry), the next TLV right behind
+    it, and reads it out to the tree of the same shape with leaf values as in `C06_value_decode`.
+    `fuel` / `depth` only have to cover the longest item list / the nesting. -/
+theorem C06_tree_decode (e : Enc) (h : e.WF) (pre rest : Bytes) (fuel depth : Nat)
+    (hw : e.width ≤ fuel) (hd : e.depth ≤ depth) :
+    ∃ n, decodeAt (pre ++ e.bytes ++ rest) pre.length = .ok (n, pre.length + e.bytes.length) ∧
+      n.entry = lookup e.tag ∧
+      readNode (pre ++ e.bytes ++ rest) fuel depth n = e.tree :=
+  decode_enc e h pre rest fuel depth hw hd
+
+/-- … in particular a datagram that consists of one such structure decodes to its tree -/
+theorem C06_datagram_decode (e : Enc) (h : e.WF) (fuel depth : Nat) (hw : e.width ≤ fuel) (hd : e.depth ≤ depth) :
+    decodeTree e.bytes fuel depth = e.tree := by
+  obtain ⟨n, hdec, _, hread⟩ := decode_enc e h [] [] fuel depth hw hd
+  simp only [List.nil_append, List.append_nil, List.length_nil] at hdec hread
+  unfold decodeTree
+  simp only [hdec, bind, Except.bind]
+  exact hread
+
 /-- Re-encoding a decoded primitive value (`bytes(obj)`: received content octets re-used, length
     re-encoded by `encode_length`) is read by the specification reader as the same tag and
     content — the same value, possibly in another length form. -/
@@ -162,5 +191,33 @@ example : LenForm.ok (.long 3) 4 ∧ Spec.readVal 66 [0, 255, 255, 255] = some (
   constructor
   · intro h; cases h
   · intro _ b rest h; cases h; omega
+
+/- non-vacuity: a binding list with two bindings, mixed length forms (the list in a 2-octet long
+   form, the second binding in a non-minimal 3-octet form), a Counter64 and an endOfMibView -/
+example :
+    let vb1 := Enc.cons .minimal 48 [.prim .minimal 6 [43, 6, 1, 2, 1, 1, 3, 0], .prim (.long 1) 70 [1, 0, 0, 0, 0, 0, 0, 0, 0]]
+    let vb2 := Enc.cons (.long 3) 48 [.prim .minimal 6 [43, 6, 1, 2, 1, 1, 4, 0], .prim .minimal 130 []]
+    let e := Enc.cons (.long 2) 48 [vb1, vb2]
+    e.WF ∧ e.width = 2 ∧ e.depth = 3 ∧
+    e.tree = .ok (.seq "Sequence" [
+      .seq "Sequence" [.oid [1, 3, 6, 1, 2, 1, 1, 3, 0], .int "Counter64" 18446744073709551616],
+      .seq "Sequence" [.oid [1, 3, 6, 1, 2, 1, 1, 4, 0], .marker "EndOfMibView"]]) := by
+  refine ⟨?_, by decide, by decide, by rfl⟩
+  simp [Enc.WF, Enc.WFL, Enc.bytesL, Enc.bytes, Spec.tlv, specLength, LenForm.ok, toBE, lookup, Gen.registry, clsName, natureName]
+
+/- non-vacuity: a whole v2c response message — wrapper, version, community, a GetResponse PDU in
+   a non-minimal long form with request-id 2^31-1, and one binding carrying a Gauge32 above 2^31 -/
+example :
+    let vb := Enc.cons .minimal 48 [.prim .minimal 6 [43, 6, 1, 2, 1, 1, 7, 0], .prim .minimal 66 [0, 255, 255, 255, 255]]
+    let pdu := Enc.pdu (.long 2) 162 [.prim .minimal 2 [127, 255, 255, 255], .prim .minimal 2 [0], .prim (.long 1) 2 [0],
+      .cons .minimal 48 [vb]]
+    let e := Enc.cons .minimal 48 [.prim .minimal 2 [1], .prim .minimal 4 [112, 117, 98], pdu]
+    e.WF ∧
+    e.tree = .ok (.seq "Sequence" [.int "Integer" 1, .str "OctetString" [112, 117, 98],
+      .seq "GetResponse" [.int "Integer" 2147483647, .int "Integer" 0, .int "Integer" 0,
+        .seq "Sequence" [.seq "Sequence" [.oid [1, 3, 6, 1, 2, 1, 1, 7, 0], .int "Gauge" 4294967295]]]]) := by
+  refine ⟨?_, by rfl⟩
+  simp [Enc.WF, Enc.WFL, Enc.bytesL, Enc.bytes, Spec.tlv, specLength, LenForm.ok, toBE, lookup, Gen.registry, clsName,
+    natureName, pduShape, Enc.isIntPrim, Enc.isBindList, Enc.isPair]
 
 end Snmp.Props.C06
